@@ -336,9 +336,10 @@ func genC08(cw *caseWriter, seed uint64, tier string) {
 	}()...), nil, nil, true)
 	// over-long line: last without a final newline under the tolerant processor (thorough: first / middle /
 	// last under every processor)
-	big := `{"k":"` + strings.Repeat("x", 10485760) + `"}`
+	big := `{"k":"` + strings.Repeat("x", 10485760-8) + `"}` // exactly 10485760 bytes: the shortest line that cannot be delivered
 	if tier == "thorough" {
-		for _, data := range []string{big + "\n{\"a\":1}\n", "{\"a\":1}\n" + big + "\n{\"a\":2}\n", "{\"a\":1}\n" + big} {
+		bigger := `{"k":"` + strings.Repeat("x", 10485760) + `"}`
+		for _, data := range []string{big + "\n{\"a\":1}\n", "{\"a\":1}\n" + big + "\n{\"a\":2}\n", "{\"a\":1}\n" + big, "{\"a\":1}\n" + bigger, bigger + "\n", big + big, "{\"a\":1}\n" + big[:len(big)-1]} {
 			for _, proc := range procs {
 				emitStream(cw, "C08", nil, nil, proc, chunk([]byte(data), []int{1 << 20}), nil, nil, true)
 			}
